@@ -28,8 +28,12 @@ pub enum Content {
     MatchNoList,
     /// only a credential of another RP; the list names it
     OtherRpOnly,
+    /// two matching credentials, both named by the list
+    TwoViaList,
+    /// two matching credentials, no list
+    TwoNoList,
 }
-pub const CONTENTS: [Content; 4] = [Content::NoMatch, Content::MatchViaList, Content::MatchNoList, Content::OtherRpOnly];
+pub const CONTENTS: [Content; 6] = [Content::NoMatch, Content::MatchViaList, Content::MatchNoList, Content::OtherRpOnly, Content::TwoViaList, Content::TwoNoList];
 
 #[derive(Clone, Debug, Serialize, Deserialize, PartialEq, Eq, Hash)]
 pub struct Case {
@@ -99,7 +103,10 @@ fn store_for(op: Op, content: Content) -> (RefStore, Option<Vec<Vec<u8>>>) {
     let own = seeded(&Seed { n: 1, rp: RP.into(), handle: Some(vec![1, 2, 3]), counter: Some(5), hmac: None });
     let other = seeded(&Seed { n: 2, rp: OTHER.into(), handle: Some(vec![1, 2, 3]), counter: Some(5), hmac: None });
     let _ = op;
+    let own2 = seeded(&Seed { n: 3, rp: RP.into(), handle: Some(vec![4, 5]), counter: Some(9), hmac: None });
     match content {
+        Content::TwoViaList => (RefStore::with(vec![own.clone(), other.clone(), own2.clone()]), Some(vec![cred_id(1), cred_id(3)])),
+        Content::TwoNoList => (RefStore::with(vec![own.clone(), other.clone(), own2.clone()]), None),
         Content::NoMatch => (RefStore::with(vec![]), None),
         Content::MatchViaList => (RefStore::with(vec![other, own]), Some(vec![cred_id(1)])),
         Content::MatchNoList => (RefStore::with(vec![other, own]), None),
@@ -338,7 +345,7 @@ pub fn eval(c: &Case) -> (Vec<Finding>, Vec<String>) {
                     let expected_err = c.pin
                         || (c.op == Op::Get && c.rk)
                         || (c.op == Op::Get && matches!(content, Content::NoMatch | Content::OtherRpOnly))
-                        || (c.op == Op::Make && content == Content::MatchViaList);
+                        || (c.op == Op::Make && matches!(content, Content::MatchViaList | Content::TwoViaList));
                     if !expected_err {
                         bad("failure-despite-consent", "all required consent was given and nothing else is wrong, yet the ceremony failed".into());
                     }
@@ -378,7 +385,7 @@ pub fn run(ctx: &Ctx) -> Result<Run, String> {
             st.outcome(&o);
         }
         st.count("ceremonies", CONTENTS.len() as u64);
-        st.sample(|| json!({"case": c, "contents": "all 4 store contents"}));
+        st.sample(|| json!({"case": c, "contents": "all 6 store contents"}));
         st.findings_from(fs);
     });
     let n = cs.len() as u64;
@@ -388,7 +395,7 @@ pub fn run(ctx: &Ctx) -> Result<Run, String> {
     }
     let mut run = Run::from_stats(
         "model_checking",
-        "complete product op x rk x up x uv x verification-capability x presence-capability x validation-outcome(7) x pin-auth x store kind, each with 4 store contents (CTAP2 level) plus userVerification(4) x op x capability x outcome at client level; a configuration is non-trivial when at least one of its ceremonies succeeded or was refused for a consent reason (0x27/0x2B)",
+        "complete product op x rk x up x uv x verification-capability x presence-capability x validation-outcome(7) x pin-auth x store kind, each with 6 store contents incl. two simultaneously matching credentials (CTAP2 level) plus userVerification(4) x op x capability x outcome at client level; a configuration is non-trivial when at least one of its ceremonies succeeded or was refused for a consent reason (0x27/0x2B)",
         true,
         stats,
     );
